@@ -38,7 +38,22 @@ def h_validate_ast(ctx):
     node = Obj(ctx.fresh('node', ObjS), 'ast.AST')
     allowed = Obj(ctx.fresh('allowed', ObjS), 'typeset')
     sp.field_sorts[('contains', 'typeset')] = lambda I_, c, item, n: Allowed(item.fields['__node__']) if isinstance(item, Rec) else (_ for _ in ()).throw(Unsupported('membership of a non-type'))
-    sp.models['type'] = Func(lambda I_, a, k, n: Rec('type', {'__name__': UF('type.__name__', ObjS, StrS)(to_z3(a[0])), '__node__': to_z3(a[0])}))
+    sp.models['type'] = Func(lambda I_, a, k, n: Rec('type', {'__name__': 'NoneType'}) if a[0] is None else
+                             Rec('type', {'__name__': UF('type.__name__', ObjS, StrS)(to_z3(a[0])), '__node__': to_z3(a[0])}))
+    # a literal is data of the language (text, number, true / false / none) or it is not (Ellipsis, bytes, complex): one predicate of the node's value
+    IsConstant, DataLiteral, Value = UF('isinstance_Constant', ObjS, BoolS), UF('is_data_literal', ObjS, BoolS), UF('ast.AST.value', ObjS, ObjS)
+
+    def m_isinstance(I_, a, k, n):
+        v, t = a
+        if isinstance(t, tuple):
+            kinds = sorted(x.name if hasattr(x, 'name') else (x.fields.get('__name__') if isinstance(x, Rec) else '?') for x in t)
+            if kinds != ['NoneType', 'bool', 'float', 'int', 'str']:
+                raise Unsupported('the data literal kinds changed: %s' % kinds)
+            return DataLiteral(to_z3(v))
+        from pyvc.interp import _b_isinstance
+        return _b_isinstance(I_, a, k, n)
+    sp.models['isinstance'] = Func(m_isinstance)
+    sp.field_sorts[('ast.AST', 'value')] = ('obj', 'pyvalue')
     sp.models['ast.iter_child_nodes'] = Func(lambda I_, a, k, n: SymSeq([Children(to_z3(a[0]))], None, ['ast.AST']))
 
     def m_rec(I_, a, k, n):
@@ -61,7 +76,7 @@ def h_validate_ast(ctx):
     ch = Children(node.expr)
     for f in ChildrenOK.unfold(ch, z3.IntVal(-1)):
         ctx.assume(f)
-    ctx.assume(AllAllowed(node.expr) == z3.And(Allowed(node.expr), ChildrenOK(ch, z3.Length(ch))))
+    ctx.assume(AllAllowed(node.expr) == z3.And(Allowed(node.expr), z3.Implies(IsConstant(node.expr), DataLiteral(Value(node.expr))), ChildrenOK(ch, z3.Length(ch))))
     jj = z3.Int('jj')      # instance of lemma.children_ok (proved by induction below) at k = len(children)
     ctx.assume(ChildrenOK(ch, z3.Length(ch)) == z3.ForAll([jj], z3.Implies(z3.And(jj >= 0, jj < z3.Length(ch)), AllAllowed(ch[jj]))))
     try:
@@ -256,7 +271,7 @@ def structural(tier, res):
             out.extend(frames.check_assigns(fi, set(al), {'from_transaction', 'get_function', 'evaluate', 'fromisoformat', '_parse_date_string',
                                                            'SequenceMatcher', 'compile', 'get_by', 'get_payments', 'normalize'}))
     for fn, names, attrs, al in (('parse_expression', {'validate_ast', 'ExpressionError'}, {'parse', 'catch_warnings', 'filterwarnings'}, ['_expression_cache']),
-                                 ('validate_ast', {'validate_ast', 'type', 'UnsafeNodeError'}, {'iter_child_nodes'}, []),
+                                 ('validate_ast', {'validate_ast', 'type', 'isinstance', 'UnsafeNodeError'}, {'iter_child_nodes'}, []),
                                  ('evaluate_transaction', {'parse_expression', 'TransactionEvaluator'}, {'from_transaction', 'evaluate'}, []),
                                  ('evaluate_transaction_ast', {'TransactionEvaluator'}, {'from_transaction', 'evaluate'}, []),
                                  ('matches_transaction', {'bool', 'evaluate_transaction'}, set(), []),
